@@ -15,8 +15,15 @@ LM_NAMES = ["FixedLifetime", "NormalLifetime", "FoldedNormalLifetime", "LogNorma
 
 
 def time_grid(rng, tier, kind=None):
-    kind = kind or rng.choice(["unit", "const2", "const5", "const10", "howto", "uneven", "uneven", "half", "unit_long", "deceptive"])
+    kind = kind or rng.choice(["unit", "const2", "const5", "const10", "howto", "uneven", "uneven", "half", "unit_long", "deceptive", "framed"])
     nmax = 12 if tier == "quick" else 25
+    if kind == "framed":
+        # grids that recur within one process with the same first year, last year and length but other years in between (the same
+        # reporting period cut differently)
+        n = int(rng.choice([4, 5, 6]))
+        total = 10 * n
+        cuts = sorted(int(q) for q in rng.choice(np.arange(1, total), size=n - 2, replace=False))
+        return [1960 + x for x in [0] + cuts + [total]], "uneven"
     if kind == "unit":
         n = int(rng.integers(3, nmax + 1))
         start = int(rng.integers(1900, 2050))
@@ -974,6 +981,40 @@ def c17_case(rec, hub, rng, tier, which):
                         if not ok:
                             rec.violation(M17, "second-compute-in-a-row-changes-results", dict(quantity=k, history=list(hist), rel_diff=rel, cls=cls_name))
                             break
+
+
+def sibling_grids_case(rec, hub, rng, tier, prop):
+    """Two stocks in one process over the same labels whose time grids share first year, last year and length but cut the period
+    differently, computed one after the other: each survival table is the one the declared distribution gives on ITS OWN grid (judged
+    against the closed form - a fresh twin in the same process would share whatever the process remembers)"""
+    fd = hub.fd
+    n = int(rng.choice([4, 5, 6]))
+    total = 10 * n
+    grids = []
+    while len(grids) < 2:
+        cuts = sorted(int(q) for q in rng.choice(np.arange(1, total), size=n - 2, replace=False))
+        g = [1960 + x for x in [0] + cuts + [total]]
+        if g not in grids:
+            grids.append(g)
+    model = str(rng.choice(LM_NAMES))
+    rdim = fd.Dimension(letter="r", name="region", items=["north", "south"])
+    with_r = bool(rng.random() < 0.6)
+    shape = (n, 2) if with_r else (n,)
+    mean = rng.uniform(4.0, 35.0, size=shape)
+    truth = {"mean": mean, "std": mean * rng.uniform(0.2, 0.5, size=shape)} if model != "WeibullLifetime" else {"weibull_shape": rng.uniform(0.8, 4.0, size=shape), "weibull_scale": mean}
+    if model == "FixedLifetime":
+        truth = {"mean": np.maximum(np.round(mean * 2) / 2, 0.5)}
+    inflow_at, n_pts = str(rng.choice(["start", "middle", "end"])), int(rng.choice([1, 1, 2, 3]))
+    for j, g in enumerate(grids):
+        dims = fd.DimensionSet(dim_list=[fd.Dimension(letter="t", name="time", items=list(g))] + ([rdim] if with_r else []))
+        lm = getattr(fd, model)(dims=dims, time_letter="t", inflow_at=inflow_at, n_pts_per_interval=n_pts, **{k: np.array(v) for k, v in truth.items()})
+        s = fd.InflowDrivenDSM(dims=dims, time_letter="t", name=f"on grid {j}", lifetime_model=lm, inflow=fd.StockArray(dims=dims, values=rng.uniform(1.0, 50.0, size=shape)))
+        with quiet():
+            s.compute()
+        with hub.pause():
+            st = S.lm_state(lm)
+            st["prms"] = {k: np.array(v, dtype=float) for k, v in truth.items()}
+            S.check_tables(rec, st, np.asarray(lm.sf), np.asarray(lm.pdf), prop, where=f"stock number {j + 1} of two on sibling grids (same first year, last year and length)")
 
 
 def two_objects_case(rec, hub, rng, tier, monitor, prop):
